@@ -512,6 +512,23 @@ var attackOps = []attackOp{
 		}
 		return root
 	}},
+	{"comment-in-attribute-value", func(s *xswScript, root, evil *etree.Element) *etree.Element {
+		// comments are not part of the canonical form: the signature still verifies, and the value read must be the whole signed text
+		for _, n := range findByTag(root, "AttributeValue") {
+			txt := n.Text()
+			if len(txt) < 2 || len(n.ChildElements()) > 0 {
+				continue
+			}
+			for len(n.Child) > 0 {
+				n.RemoveChildAt(0)
+			}
+			h := 1 + s.c.rng.Intn(len(txt)-1)
+			n.AddChild(etree.NewText(txt[:h]))
+			n.AddChild(etree.NewComment(s.c.pick("x", "", " -> ")))
+			n.AddChild(etree.NewText(txt[h:]))
+		}
+		return root
+	}},
 	{"cdata-in-nameid", func(s *xswScript, root, evil *etree.Element) *etree.Element {
 		for _, n := range findByTag(root, "NameID") {
 			txt := n.Text()
